@@ -80,7 +80,8 @@ func classify(err error) string {
 		return "badvarint"
 	case errors.As(err, &ic):
 		return "badcid"
-	case strings.Contains(msg, "invalid section data, length of read beyond allowable maximum"):
+	case strings.Contains(msg, "invalid section data, length of read beyond allowable maximum"),
+		strings.Contains(msg, "header is bigger than util.MaxAllowedSectionSize"):
 		return "toolarge"
 	case strings.Contains(msg, "invalid header data, length of read beyond allowable maximum"):
 		return "hdrtoolarge"
